@@ -34,7 +34,7 @@ ASSUMPTIONS = [
 ]
 NCASES = {"quick": 3200, "thorough": 200000}
 NSHARDS = 16
-SHARD_TIMEOUT = {"quick": 900, "thorough": 3600}
+SHARD_TIMEOUT = {"quick": 300, "thorough": 3600}
 MOD = "vf.checks.c12"
 
 VARIANTS = ["MutableRandomLineAccessFile", "MutableMemoryMappedRandomLineAccessFile", "MutableRecordFile:raw",
